@@ -94,3 +94,12 @@ type Badge struct {
 	Id    int64
 	Label string
 }
+
+// Profil has field names with non-ASCII letters: legal Go, and PostgreSQL only
+// folds ASCII letters of unquoted identifiers.
+type Profil struct {
+	Id     int64
+	Élan   int
+	Ünvan  string
+	NomÉcu string
+}
